@@ -673,8 +673,6 @@ Lemma only_everywhere_noninterference_lemma md lib page ctx ctx' zn sv sv' fuel 
   render_prog fuel (mkprog (lib_with_secrets zn sv' lib) page ctx' md).
 Proof.
   intros Hp Hl Hctx.
-  assert (E : forall o, (fun only : bool => only) o = true -> both_isolated md md o = true).
-  { intros o Ho. cbn in Ho. subst. reflexivity. }
   assert (M : forall ts, all_only ts = true -> iso_tpls (both_isolated md md) ts = true).
   { intros ts Hts. destruct md.
     - apply iso_all_true_list. exact both_isolated_Isolated.
